@@ -29,6 +29,7 @@ struct Config {
   int starve_thread = -1;      // S_STARVE: thread id chosen only when nothing else is enabled (or 1/8)
   int sticky_num = 3;          // S_STICKY: keep running the current thread with probability sticky_num/4
   int sig_linux_bias = 0;      // 1: a SIGCHLD goes to the forking thread whenever it is eligible
+  int pid_recycle = 0;         // 1: simulated pids come from a small space and are re-used as soon as the child has been reaped
   long max_steps = 200000;     // step cap (bounded liveness)
   std::vector<Fault> faults;
   bool replay = false;         // decisions come from 'decisions' (modulo the enabled set; exhausted -> 0)
@@ -87,6 +88,7 @@ struct Fate {
 void set_next_fate(const Fate& f);    // fate of the next child forked by the calling thread
 typedef Fate (*fate_provider)(const char* output_path);   // alternative: fate looked up from the output file name
 void set_fate_provider(fate_provider);
+void pids_settled();                  // pid recycling: the reaped children forked by the calling thread may have their pid re-used from now on
 int children_unreaped();              // zombies + running children at this instant
 int fake_fds_open();                  // simulated descriptors still open in the parent
 #endif
